@@ -18,6 +18,7 @@ static LOG_TT: AtomicBool = AtomicBool::new(false);
 static LOG_WB: AtomicBool = AtomicBool::new(false);
 static LOG: Mutex<Vec<String>> = Mutex::new(Vec::new());
 static SIGNAL: Mutex<Option<CancellationToken>> = Mutex::new(None);
+static CANCELLED_AT: Mutex<Option<std::time::Instant>> = Mutex::new(None);
 
 thread_local! {
     static TAG: Cell<usize> = Cell::new(usize::MAX);
@@ -160,6 +161,7 @@ pub(super) fn on_node(token: &CancellationToken) {
         NODES_AFTER_CANCEL.fetch_add(1, Ordering::SeqCst);
     }
     if n == CANCEL_AT.load(Ordering::SeqCst) {
+        *CANCELLED_AT.lock().unwrap() = Some(std::time::Instant::now());
         // the search's own token (an iteration may run under a different one)
         match SIGNAL.lock().unwrap().as_ref() {
             Some(signal) => signal.cancel(),
@@ -442,6 +444,8 @@ pub struct SyncOutcome {
     pub artifact: SearchArtifact,
     pub nodes: usize,
     pub nodes_after_cancel: usize,
+    /// wall-clock milliseconds between the node-indexed cancellation and the return
+    pub ms_after_cancel: Option<u64>,
 }
 
 /// Runs the real `analyze_iterative` on the calling thread. `cancel_at_node` sets the
@@ -462,6 +466,7 @@ pub fn analyze_sync<F: FnMut(StatusEvent)>(
     let rng = RandomNumberGenerator::seed_from_u64(seed);
     let (signal, listen) = CancellationToken::new();
     *SIGNAL.lock().unwrap() = Some(signal);
+    *CANCELLED_AT.lock().unwrap() = None;
     let evaluator = eval::Evaluator::default();
     let artifact = Searcher::analyze_iterative(
         state, &evaluator, rng, max_depth, listen, artifact, workers, f,
@@ -472,6 +477,7 @@ pub fn analyze_sync<F: FnMut(StatusEvent)>(
         artifact,
         nodes: NODES.load(Ordering::SeqCst),
         nodes_after_cancel: NODES_AFTER_CANCEL.load(Ordering::SeqCst),
+        ms_after_cancel: CANCELLED_AT.lock().unwrap().map(|t| t.elapsed().as_millis() as u64),
     }
 }
 
